@@ -56,8 +56,10 @@ def worker(job):
     seed, tier = job["seed"], job["tier"]
     for i in range(job["lo"], job["hi"]):
         rng = common.rng_for(seed, "C07", i)
-        case = gen.gen_case(rng, min_vars=1, max_vars=6, max_dom=3, palettes=("ties", "distinct", "neg"),
+        case = gen.gen_case(rng, min_vars=1, max_vars=6, max_dom=3, palettes=("ties", "distinct", "neg", "inf"),
                             max_space=800, initial=True)
+        if case["palette"] == "inf":
+            case["objective"] = "min"  # an infinite cost is a hard constraint of a minimisation problem
         csig = gen.case_sig(case)
         nb = gen.neighbors(case)
         for s in range(job["nsched"]):
